@@ -136,7 +136,7 @@ def ensure_facts(crates=None, repo=REPO, verbose=True):
         lock.close()
 
 
-def _gc(keep, maxdirs=6):
+def _gc(keep, maxdirs=14):
     base = os.path.join(CACHE, "facts")
     ds = [os.path.join(base, d) for d in os.listdir(base)]
     ds = [d for d in ds if os.path.isdir(d) and d != keep]
